@@ -98,6 +98,13 @@ def judge_vm(res, code, cfg, feats, r):
         res.violation("c03:step-after-gas-limit", "an instruction was executed with %d gas already consumed (limit %d)" % (
             mon["max_gas_before"], G), case)
         return True
+    # the same bound on the monitor's own books: gas inherited at the fork (by our accounting) + gas consumed since
+    if mon.get("max_gas_accounted", 0) > G:
+        res.violation("c03:step-after-gas-limit:independent-accounting",
+                      "by the monitor's own accounting a thread executed an instruction after consuming %d gas along its path "
+                      "(limit %d), although the thread's own counter never exceeded %d: gas not inherited on fork?" % (
+                          mon["max_gas_accounted"], G, mon["max_gas_before"]), case)
+        return True
     return False
 
 
